@@ -10,7 +10,7 @@ RULE = ("S-syn listings x rules nesting $or/$and/$and_any_order to depth 3 at in
         "start / hit windows. Non-trivial = model finds the rule or one mutation from a found case; distinct = (rule, listing).")
 FLOOR = {"quick": 300, "thorough": 4000}
 ANCHOR_HINTS = ["node_branch_root", "ast_builder", "pattern_node_builder", "deref_classes"]
-REQUIRED_EVENTS = ["hits_located", "law_cases_compared"]
+REQUIRED_EVENTS = ["hits_located", "law_cases_compared", "wide_any_order_cells"]
 
 
 def feat(rng):
@@ -258,11 +258,42 @@ def replay_law(ctx, case):
         ctx.disagreement(case, f"operator reports {rm[1] if rm[0] == 'ok' else rm[1:]} but its expansions report {union[:8]}")
 
 
+def wide_any_order_stratum(ctx, d):
+    """$and_any_order with six children (720 orderings), two of which can match the same instruction (a repeated child, or a name
+    contained in another): windows that hold the right number of instructions but the wrong multiset must not match. Identical at every seed."""
+    from jv import dsl, listing as L
+    cases = [
+        (["push", "push", "pop", "mov", "add", "sub"], [["push", "pop", "pop", "mov", "add", "sub"], ["sub", "add", "mov", "pop", "push", "push"], ["push", "push", "push", "mov", "add", "sub"]]),
+        (["mov", "movl", "add", "sub", "inc", "dec"], [["movl", "movl", "add", "sub", "inc", "dec"], ["dec", "inc", "sub", "add", "movl", "mov"], ["mov", "mov", "add", "sub", "inc", "dec"]]),
+        (["nop", "nop", "nop", "ret", "hlt", "cli"], [["nop", "nop", "ret", "ret", "hlt", "cli"], ["cli", "hlt", "ret", "nop", "nop", "nop"]]),
+        (["a", "ad", "add", "sub", "inc", "dec"], [["add", "add", "add", "sub", "inc", "dec"], ["dec", "inc", "sub", "add", "adc", "lea"]]),
+    ]
+    for i, (children, windows) in enumerate(cases):
+        if i % ctx.nshards != ctx.shard % len(cases) or ctx.shard >= len(cases):
+            continue
+        for w in windows:
+            insts, addr = [], 0x401000
+            for m in ["ret"] + w + ["leave"]:
+                insts.append(L.SInst(addr, m, [], None, None, 1))
+                addr += 1
+            prep = dsl.Prepared(d.ws, insts, ctx.rng)
+            ctx.ran()
+            if not prep.verify(d.ws):
+                continue
+            d.prep, d.style = prep, "wide-any-order"
+            kids = list(children)
+            ctx.rng.shuffle(kids)
+            d.run_pattern([{"$and_any_order": kids}], "base", True)
+            d.run_pattern(["ret", {"$and_any_order": kids}, "leave"], "base", True)
+            ctx.event("wide_any_order_cells")
+
+
 def run_shard(ctx):
     d = drive.Driver(ctx, feat, flags="random", styles=("mixed", "runs", "dups"))
     d.loop(3000, 250000)
     nesting_stratum(ctx, d, ctx.share(180, 6000))
     law_stratum(ctx, d, ctx.share(480, 20000))
+    wide_any_order_stratum(ctx, d)
 
 
 def replay(ctx, case):
